@@ -53,14 +53,16 @@ OUTSIDE = ["floating point: f32/f64 values, float<->integer casts (the float-to-
            "blob-typed loads/stores, CopyBlob, JumpTable, InlineAsm (ir2py raises NotImplementedError or is not exercised)",
            "the representation of pointer VALUES beyond equality modulo 2**32 (ir2py keeps pointers as unbounded Python ints and "
            "loads/stores them as 4 signed bytes)",
-           "programs outside the stated families; executions longer than the unwinding bound",
+           "programs outside the stated families (in particular out-of-object pointer arithmetic and observing the address of a local); "
+           "executions longer than the unwinding bound",
            "external functions that modify memory visible to the caller"]
 ASSUMPTIONS = ["IR reference semantics ref/irsem.py (wrap-around, truncating / %, arithmetic >> on signed, rol/ror, casts, little-endian memory), "
                "pointer width 32 bits",
                "premise: the source execution is defined (no division by zero, no signed division overflow, shift count < width, accesses "
                "inside one live region, no read of Undefined)",
-               "the reference is evaluated under the address map chosen by the generated code (globals, literals and buffers at their IrPy heap "
-               "addresses, allocas packed upwards from address 0)",
+               "the reference is evaluated under the address map chosen by the generated code for globals, literals and caller buffers "
+               "(their IrPy heap addresses); allocas live in the reference's own stack area, so the VALUE of a local's address "
+               "(comparison with null / other objects, cast to integer) is not compared",
                "generated-code builtins on proxies: round(x) of an integer is x; hex(x) only builds assertion messages; "
                "the helpers correct/idiv/irem run from their generated source with pure sign tests merged (symx.ifconv)"]
 SHIMS_USED = ["isinstance", "int", "bytes", "struct"]
@@ -90,12 +92,13 @@ EXTRA_PROGS = {
 
 # programs of the shared corpus used here (a fixed list: the corpus grows with other properties' needs;
 # tail_swap_gcd - recursion through a symbolic signed remainder - is left out: its path feasibility queries
-# nest srem terms and do not finish inside the job budget)
+# nest srem terms and do not finish inside the job budget; store_load_alias_store indexes an array with an
+# unconstrained int - out-of-object pointer arithmetic, whose meaning depends on the address map)
 CORPUS_PROGS = ['add_zero', 'addr_of_local', 'arith', 'calls', 'char_wrap', 'compound', 'const_fold', 'cse_candidates', 'divmod',
                 'do_while', 'empty_branches', 'empty_else_chain', 'extern_calls', 'extern_order', 'for_break', 'global_array',
                 'global_rw', 'ifelse', 'incdec', 'load_after_store', 'local_array', 'logic', 'long_arith', 'mixed_width',
                 'negative_consts', 'nested_loops', 'pointer_arg', 'recursion', 'shifts', 'store_call_store',
-                'store_load_alias_store', 'store_narrowload_store', 'struct', 'switch', 'tail_call', 'tail_pass_through',
+                'store_narrowload_store', 'struct', 'switch', 'tail_call', 'tail_pass_through',
                 'tail_rotate3', 'tail_self', 'ternary', 'udivmod', 'ulong_arith', 'unsigned_cmp', 'while_sum']
 
 
@@ -586,7 +589,7 @@ class Ir2PyHarness(Harness):
         ms = 140 if os.environ.get("VERIF_TIER_ACTIVE", "quick") == "quick" else 300
         try:
             sem = irsem.IrSem(module, ptr_bits=PTR_BITS, ext_results=i["ext"], max_steps=ms, init_globals=i["glob"],
-                              buffers=i["bufs"], layout=layout, stack_base=0, stack_align=1)
+                              buffers=i["bufs"], layout=layout)
             argv = []
             for (kind, v), p in zip(i["args"], f.arguments):
                 if kind == "ptr":
